@@ -167,3 +167,31 @@ Theorem C10_match_immediate_abort_refuted :
     match_phase true 10 cands raises st [] = MLookupError 1 1.
 Proof. exact match_phase_immediate_refuted. Qed.
 Print Assumptions C10_match_immediate_abort_refuted.
+
+(* ------------------------------------------------------------------------------------------ *)
+From NG Require Import Gen.C10Consts.
+
+(* (T) read from the current source on every run: the error handlers around slide(), around the
+   evaluation of a match statement, around the creation of an action event and around
+   run_to_completion in process_events catch `Exception` (every Python exception a statement can
+   raise, not only the Colang error classes), and the max_events counter of process_events is
+   initialised once per call *)
+Theorem C10_handlers_in_source :
+  advance_catches_exception = true /\ match_catches_exception = true /\
+  action_event_catches_exception = true /\ process_events_catches_exception = true /\
+  max_events_counter_per_call = true.
+Proof. exact (conj eq_refl (conj eq_refl (conj eq_refl (conj eq_refl eq_refl)))). Qed.
+Print Assumptions C10_handlers_in_source.
+
+(* the outer loop of process_events (outgoing events are fed back as input events) ends after at
+   most max_events handled events, whatever the flows send to each other ... *)
+Theorem C10_process_events_terminates : forall St Ev (rtc : St -> Ev -> St * list Ev) max fuel cnt st inp,
+  cnt <= max -> max - cnt < fuel -> pe St Ev rtc false fuel max cnt st inp <> None.
+Proof. exact process_events_terminates. Qed.
+Print Assumptions C10_process_events_terminates.
+
+(* ... but not if the counter is reset in every round: two flows answering each other *)
+Theorem C10_process_events_per_round_refuted : forall max, 1 <= max ->
+  forall n cnt, pe unit nat (fun st e => (st, [e])) true n max cnt tt [0] = None.
+Proof. exact process_events_per_round_refuted. Qed.
+Print Assumptions C10_process_events_per_round_refuted.
